@@ -329,6 +329,11 @@ def stepPipes (d : DState) (toks : List String) : Option (DState × String) :=
   | ["pipes", "deliver", k, a] => go (.deliver { add := k == "add", hasArgs := a == "1" })
   | ["pipes", "begin"] => go .beginBusy
   | ["pipes", "end"] => go .endBusy
+  | ["pipes", "any", ex, names, tgt, states] =>
+    -- BindAny's handler for one source transition; the target's active set afterwards, in the
+    -- order of `names`
+    let r := Pipes.bindAnyStep (ex == "1") (parseList names) (parseList tgt) (parseList states)
+    some (d, s!"target={showList ((parseList names).filter (fun n => r.contains n))}")
   | _ => none
 
 def showRec (r : Hist.Rec) : String :=
